@@ -8,7 +8,7 @@ import random
 import re
 import shlex
 
-from .. import core, ops, report
+from .. import core, ops, report, gen
 from ..core import T0_NS, b2s, s2b, stable_hash
 from ..world import World, inventory
 
@@ -31,7 +31,7 @@ PRIOS = ["top", "bottom", "newest", "oldest", "most-recently-modified", "least-r
 def gen_case(seed, i):
     rng = random.Random(stable_hash(seed, ID, i))
     nroots = rng.randint(1, 3)
-    roots = ["r%d" % (k + 1) for k in range(nroots)]
+    roots = gen.root_names(rng, nroots)
     w = World()
     times = {}
     tvals = [T0_NS - k * 3600 * 10**9 - 500 * 10**6 for k in range(1, 5)]   # few values -> ties
